@@ -298,6 +298,11 @@ Step(e) ==
                                  IF \A v \in owed[e.c] : Get0(exitN, v) = 1 \/
                                        \E k2 \in keysSeen : k2 # vkey[v] /\ HashOfK(k2) = HashOfK(vkey[v])
                                    THEN "F9" ELSE "")
+                       \cup FlagS("C15", closed \/ ~cfg.cb \/ clrDirty \/ \A v \in owed[e.c] : Get0(exitN, v) >= 1,
+                                 "a value still held or buffered when Clear/Close was called was not released through the callbacks",
+                                 IF \A v \in owed[e.c] : Get0(exitN, v) >= 1 \/
+                                       \E k2 \in keysSeen : k2 # vkey[v] /\ HashOfK(k2) = HashOfK(vkey[v])
+                                   THEN "F9" ELSE "")
          /\ UNCHANGED <<tid, cfg, vkey, vcost, vttl, vtb, vte, accepted, refused, exitN, evictN, rejectN, 
                  exitedAt, pendCb, getSnap, ended, delBefore, cand, waitCov, dead, owed, clearEver, 
                  getsAll, raised, maxMax, keysSeen, begunN, runN, exitDue, mcOpen, mcN, clrDirty, lateAdd, 
